@@ -70,7 +70,7 @@ def expected(op: str, w: int, b: bytes) -> Tuple[str, ...]:
             return ('na',)
         v = int(b)
         return ('ok', v) if smin <= v <= smax else ('ovf',)
-    if name in ('ur', 'urn', 'uwn', 'ua', 'uw', 'mr', 'ma', 'mw', 'mwn'):
+    if name in ('ur', 'urn', 'uwn', 'ua', 'uw', 'mr', 'ma', 'um', 'mw', 'mwn'):
         m = RE_U.match(b)
         if not m:
             return ('fail',)
@@ -83,7 +83,7 @@ def expected(op: str, w: int, b: bytes) -> Tuple[str, ...]:
             return ('ok', n, None) if v <= M else ('fail',)
         if name == 'ma':
             return ('ok', n, v) if v <= M else ('fail',)
-        if name == 'mw':
+        if name in ('mw', 'um'):
             return ('ok', n, v) if v <= M else ('thr',)
         return ('ok', n, None) if v <= M else ('thr',)          # mwn
     if name in ('sr', 'srn', 'swn', 'sa', 'sw'):
